@@ -156,7 +156,8 @@ class CallMixin:
         if not overriding or (contract is not None and getattr(contract, 'covers_overrides', False)):
             if f0 is None:
                 raise VCError('no method %s.%s' % (cls, name))
-            yield from self.call_func(f0, [recv] + list(args), kwargs, st, frame, node)
+            is_static = any(isinstance(d, ast.Name) and d.id == 'staticmethod' for d in f0.node.decorator_list)
+            yield from self.call_func(f0, ([] if is_static else [recv]) + list(args), kwargs, st, frame, node)
             return
         # dynamic dispatch: split on the exact class
         groups = {}
